@@ -17,14 +17,37 @@ from c03 import classify
 DF_RESTRICTIONS = ["This feature is not implemented", "not supported", "Unsupported"]
 
 
-def finding_key(case, r, d):
+def finding_key(case, r, d, sql_side=False):
     """Narrow keys of genuine engine defects (known_findings.json, property C48)."""
     err = (r["df"][d] or {}).get("err") or ""
     ops = r.get("ops", {})
     if "Schema error: No field named" in err and ops.get("with_column_renamed") and \
             (ops.get("union_by_name") or ops.get("union_by_name_distinct")):
         return "union_by_name-over-renamed-qualified-columns-then-pushdown"
+    # SQL side wrong, DataFrame side right: sum / count(DISTINCT) of a column-free argument (SQL projects it first)
+    if sql_side and _literal_agg(case["plan"]):
+        return "sql-aggregate-of-projected-literal-answered-from-statistics"
     return None
+
+
+def _cols(e):
+    if isinstance(e, dict):
+        if e.get("op") in ("col", "outer"):
+            return 1
+        return sum(_cols(v) for v in e.values())
+    if isinstance(e, list):
+        return sum(_cols(v) for v in e)
+    return 0
+
+
+def _literal_agg(x):
+    if isinstance(x, dict):
+        if x.get("op") == "agg" and any((a["f"] == "sum" or (a["f"] == "count" and a["distinct"])) and _cols(a["e"]) == 0 for a in x["aggs"]):
+            return True
+        return any(_literal_agg(v) for v in x.values())
+    if isinstance(x, list):
+        return any(_literal_agg(v) for v in x)
+    return False
 
 
 def judge(ctx, case, r, st, samples, nontrivial, report=None):
@@ -45,6 +68,7 @@ def judge(ctx, case, r, st, samples, nontrivial, report=None):
                 samples.append({"sql": case["sql"], "dataframe_plan": r["df_plan"], "db": view["db"], "expect": view["expect"],
                                 "dataframe_rows": r["df"][d]["rows"]})
         bad = None
+        sql_side = False
         if sd == "diff" and ss == "ok":
             bad = f"DataFrame result differs from the reference ({md}) while the SQL rendering of the same plan agrees with it"
         elif sd == "diff" and ss == "diff" and case["mode"] in ("bag", "ordered") and \
@@ -54,10 +78,11 @@ def judge(ctx, case, r, st, samples, nontrivial, report=None):
             bad = f"DataFrame chain fails ({md[:300]}) while the SQL rendering executes"
         elif sd == "ok" and ss == "diff":
             bad = f"SQL result differs from the reference ({ms}) while the DataFrame chain agrees with it"
+            sql_side = True
         if bad:
             report(ctx, {"case": dict(case, layout=r.get("layout")), "db_index": d, "oracle": bad, "dataframe_plan": r["df_plan"],
                                    "dataframe": r["df"][d], "sql_engine": r["sql"][d], "reference": view["expect"]},
-                             key=finding_key(case, r, d))
+                             key=finding_key(case, r, d, sql_side))
             return
     want_types = [{"i": "Int64", "s": "Utf8", "b": "Boolean"}[k] for k in case["schema"]]
     if r["df_types"] and r["df_types"] != want_types:
